@@ -201,6 +201,28 @@ def frac_cis(fr):
 K_DM = F(10**6, 241)  # s MHz^2 cm^3 / pc  == 1 / 2.41e-4
 
 
+class _Infinity:
+    """An infinite reference frequency inside the exact formulas below: 1/INF = 0, INF/x = INF**k = INF."""
+
+    def __truediv__(self, other):
+        return self
+
+    def __pow__(self, other):
+        return self
+
+    def __rtruediv__(self, other):
+        return F(0)
+
+    def __float__(self):
+        return float("inf")
+
+    def __repr__(self):
+        return "INF"
+
+
+INF = _Infinity()
+
+
 def disp_delay_s(dm, f_hz, fref_hz):
     """K*DM*(f^-2 - fref^-2) in seconds, exact (f in Hz as Fractions, dm a Fraction)."""
     fm, rm = f_hz / 10**6, fref_hz / 10**6
